@@ -386,6 +386,14 @@ def check_rayleigh_limit(inp):
         if not abs(ks / ray - 1) <= 0.10:
             out.append((f"rayleigh-limit:{name}", f"{name}: ks={ks:.6e} vs Rayleigh {ray:.6e} (ratio {ks / ray:.4f}) at nu={nu:.4e}, radius/lambda={rl:.3e}, "
                         f"f={f:.4e}, T={T:.1f}", ks / ray, "within 10 % of 1"))
+    # the same limit when the spectrum of the spheres is obtained numerically from their real-space autocorrelation function
+    # (documented microstructure option ft_numerical=True)
+    if inp.get("ft_numerical"):
+        layn = mk_layer("independent_sphere", f, 1.0, eps, radius=r, ft_numerical=True)
+        ks = ks_of("iba", s, layn)
+        if not abs(ks / ray - 1) <= 0.10:
+            out.append(("rayleigh-limit:iba:ft_numerical", f"iba with independent_sphere(ft_numerical=True): ks={ks:.6e} vs Rayleigh {ray:.6e} (ratio "
+                        f"{ks / ray:.4f}) at nu={nu:.4e}, radius/lambda={rl:.3e}, f={f:.4e}", ks / ray, "within 10 % of 1"))
     return out
 
 
@@ -548,7 +556,7 @@ def oracle(ctx, hints, effort):
             f = 0.04999
         if i % 8 == 2:
             nu = [1e9, 40e9][(i // 8) % 2]
-        record("rayleigh", {"nu": nu, "rl": rl, "f": f, "T": float(rng.uniform(200, 273))})
+        record("rayleigh", {"nu": nu, "rl": rl, "f": f, "T": float(rng.uniform(200, 273)), "ft_numerical": i % 10 == 3})
     for i in range(n // 4):
         nu, rl, f = float(10 ** rng.uniform(9, math.log10(20e9))), float(10 ** rng.uniform(-4, math.log10(0.005))), gen_f(rng)
         record("scaling", {"nu": nu, "rl": rl, "f": f, "c": float(rng.uniform(1, 2)), "d": float(rng.uniform(1, 2)),
